@@ -198,6 +198,43 @@ impl Prop for C09 {
                 extra: json!({"corpus": "B"}),
             });
         }
+        // groups of more than 20 reorderable declarations with rank-equal pairs (the order the pinned release
+        // gives them depends on its sort being stable; std switches algorithm above 20 elements)
+        for kind in ["use", "mod", "crate"] {
+            for n in [22usize, 33, 64] {
+                let elems: Vec<(usize, usize)> = (0..n).map(|i| (i / 2, i % 2)).collect();
+                let perms: Vec<(&str, Vec<usize>)> = vec![
+                    ("reversed", (0..n).rev().collect()),
+                    ("stride7", (0..n).map(|i| (i * 7) % n).collect()),
+                    ("stride13", (0..n).map(|i| (i * 13 + 1) % n).collect()),
+                    ("riffle", (0..n).map(|i| if i % 2 == 0 { i / 2 } else { (n + 1) / 2 + i / 2 }).collect()),
+                ];
+                for (pname, perm) in perms {
+                    let mut seen = vec![false; n];
+                    if perm.iter().any(|&i| std::mem::replace(&mut seen[i], true)) {
+                        continue; // not a permutation for this n
+                    }
+                    let text: String = perm
+                        .iter()
+                        .map(|&i| {
+                            let (m, a) = elems[i];
+                            let al = ["first", "second"][a];
+                            match kind {
+                                "use" => format!("use m{m:02}::item as {al};\n"),
+                                "mod" => format!("#[cfg({al})]\nmod m{m:02};\n"),
+                                _ => format!("#[cfg({al})]\nextern crate m{m:02};\n"),
+                            }
+                        })
+                        .collect();
+                    units.push(Unit {
+                        key: format!("biggroup/{kind}/n{n}/{pname}"),
+                        text,
+                        cfg: Cfg::new(2015),
+                        extra: json!({"corpus": "B"}),
+                    });
+                }
+            }
+        }
         units
     }
     fn check(&self, u: &Unit, tier: Tier, sink: &mut Sink) {
